@@ -10,6 +10,7 @@ Driver commands of the codec work-package (C02–C05):
 import EngineModel.Driver.Cmds.Core
 import EngineModel.Impl.Zlib
 import EngineModel.Impl.ZlibCompress
+import EngineModel.Impl.Blob
 import EngineModel.Format.V1
 
 open EngineModel EngineModel.Text
@@ -18,12 +19,21 @@ namespace Drv
 
 def isRawKind (k : String) : Bool := k == "v2.loops" || k == "v1.loops"
 
+/-- `decz`: the blob-level Model (`Impl/Blob.lean`): `fromBlob = decode ∘ uncompress`, loops raw. -/
 def deczCmd (kind : String) (blob : Bytes) : String :=
-  if isRawKind kind then decCmd kind blob else
-  match Impl.Zlib.unz blob with
-  | .ok payload => decCmd kind payload
-  | .throw e => "throw " ++ e.toString
-  | .ub u => "ub " ++ u.toString
+  match kind with
+  | "v2.beat" => renderRes sBeat (Impl.Blob.fromBlobBeat2 blob)
+  | "v2.cues" => renderRes sCues (Impl.Blob.fromBlobCues2 blob)
+  | "v2.loops" => renderRes sLoops (Impl.Blob.fromBlobLoops2 blob)
+  | "v2.ovw" => renderRes sOvw (Impl.Blob.fromBlobOvw2 blob)
+  | "v2.track" => renderRes sTrack (Impl.Blob.fromBlobTrack2 blob)
+  | "v1.beat" => renderRes sBeat1 (Impl.Blob.fromBlobBeat1 blob)
+  | "v1.cues" => renderRes sCues1 (Impl.Blob.fromBlobCues1 blob)
+  | "v1.loops" => renderRes sLoops1 (Impl.Blob.fromBlobLoops1 blob)
+  | "v1.ovw" => renderRes sWave (Impl.Blob.fromBlobOvw1 blob)
+  | "v1.hires" => renderRes sWave (Impl.Blob.fromBlobHires1 blob)
+  | "v1.track" => renderRes sTrack1 (Impl.Blob.fromBlobTrack1 blob)
+  | _ => "bad-op kind"
 
 def reencCmd (kind : String) (payload : Bytes) : String :=
   match kind with
